@@ -7,14 +7,15 @@
 // cache-then-broadcast window and a publish inside a joiner's
 // snapshot-then-register window (build-tag schedule points). The oracle works
 // on the linearisation the schedule points report:
-//   (1) no packet is delivered twice to one consumer;
-//   (2) every packet whose broadcast began after the consumer was registered is
-//       delivered, in publish order (all of them once the consumer has drained);
-//   (3) apart from parameter-set packets replayed up front, delivery order is
-//       publish order;
-//   (4) the delivered object is the published one, bytes untouched;
-//   (5) metamorphic: the target consumer's list is the same with and without the
-//       other consumers.
+//
+//	(1) no packet is delivered twice to one consumer;
+//	(2) every packet whose broadcast began after the consumer was registered is
+//	    delivered, in publish order (all of them once the consumer has drained);
+//	(3) apart from parameter-set packets replayed up front, delivery order is
+//	    publish order;
+//	(4) the delivered object is the published one, bytes untouched;
+//	(5) metamorphic: the target consumer's list is the same with and without the
+//	    other consumers.
 package c01
 
 import (
@@ -32,6 +33,7 @@ import (
 	"pgregory.net/rapid"
 	"verif/harness/lib/evid"
 	"verif/harness/lib/mediah"
+	"verif/harness/lib/rtppack"
 	"verif/harness/lib/rtppack/esgen"
 	"verif/harness/lib/sched"
 )
@@ -146,7 +148,11 @@ func genPlan(t *rapid.T, windows bool) *plan {
 	if windows {
 		nw := rapid.IntRange(1, 3).Draw(t, "windows")
 		for i := 0; i < nw; i++ {
-			switch rapid.IntRange(0, 3).Draw(t, "windowKind") {
+			switch rapid.IntRange(0, 5).Draw(t, "windowKind") {
+			case 4: // in the middle of a broadcast: after the k-th consumer was served
+				pl.Windows = append(pl.Windows, window{Point: "broadcast.sent", Occ: rapid.IntRange(1, 4*len(pl.pubs)).Draw(t, "occ"), Do: "detach", Consumer: rapid.IntRange(1, 4).Draw(t, "detachWho")})
+			case 5:
+				pl.Windows = append(pl.Windows, window{Point: "broadcast.sent", Occ: rapid.IntRange(1, 4*len(pl.pubs)).Draw(t, "occ"), Do: "attach", Consumer: 100 + i})
 			case 0, 1:
 				pl.Windows = append(pl.Windows, window{Point: "publish.cached", Occ: rapid.IntRange(1, len(pl.pubs)).Draw(t, "occ"), Do: "attach", Consumer: 100 + i})
 			case 2:
@@ -586,5 +592,89 @@ func TestFanoutStress(t *testing.T) {
 		judge(t, pl, out)
 		evid.Class("stress: free-running publisher with concurrent attach/detach")
 		evid.Nontrivial(evid.FP("stress", fmt.Sprint(pl.Steps), fmt.Sprint(pl.Packets)))
+	})
+}
+
+// Churn: one publisher, several goroutines that attach, take a few packets and
+// detach again, over and over. Between its registration and its detach a
+// consumer receives every packet, so each session's list must be a run of
+// consecutive publish indices (the tail may be cut by the detach): a gap or a
+// repeat inside a session means one consumer's delivery depended on another's
+// attach / detach. At most 800 packets per case, so no backlog drop is possible.
+func TestFanoutChurn(t *testing.T) {
+	evid.Checks(40, 600)
+	rapid.Check(t, func(t *rapid.T) {
+		h265 := rapid.Bool().Draw(t, "h265")
+		churners := rapid.IntRange(3, 8).Draw(t, "churners")
+		npk := rapid.IntRange(300, 800).Draw(t, "packets")
+		hold := rapid.SliceOfN(rapid.IntRange(0, 6), churners, churners).Draw(t, "packetsPerSession")
+		cdc := esgen.H264
+		if h265 {
+			cdc = esgen.H265
+		}
+		evid.Eval(1)
+		config.VerifSet(":0", false, false, "", 5)
+		s := media.NewStream("/c01/churn", mediah.SDP(cdc, false))
+		defer s.Close()
+		// slices only: nothing is cached or replayed, a session sees live packets only
+		pubs := make([]*rtp.Packet, npk)
+		index := map[interface{}]int{}
+		for i := range pubs {
+			nal := []byte{0x41, byte(i >> 8), byte(i), 1, 2, 3, 4}
+			if h265 {
+				nal = []byte{1 << 1, 1, byte(i >> 8), byte(i), 1, 2, 3}
+			}
+			pubs[i] = rtppack.ToIpchub(rtp.ChannelVideo, rtppack.Pkt{PT: 96, Seq: uint16(i), TS: uint32(1000 + i*3000), SSRC: 5, Marker: true, Payload: nal}.Marshal())
+			index[pubs[i]] = i
+		}
+		var done int64
+		var wg sync.WaitGroup
+		type session struct {
+			churner int
+			list    []int
+		}
+		var mu sync.Mutex
+		var bad *session
+		sessions := 0
+		for c := 0; c < churners; c++ {
+			wg.Add(1)
+			go func(c int) {
+				defer wg.Done()
+				for atomicLoad(&done) == 0 {
+					rec := mediah.NewRec("churn")
+					cid := s.StartConsume(rec, media.RTPPacket, "churn")
+					for rec.Len() < hold[c] && atomicLoad(&done) == 0 {
+						yield()
+					}
+					s.StopConsume(cid)
+					// the delivery goroutine may still hand over what it had popped: wait for its Close
+					mediah.WaitFor(bound, func() bool { return rec.Closed() > 0 })
+					var l []int
+					for _, g := range rec.Got() {
+						l = append(l, index[g])
+					}
+					mu.Lock()
+					sessions++
+					for i := 1; i < len(l); i++ {
+						if l[i] != l[i-1]+1 && bad == nil {
+							bad = &session{churner: c, list: l}
+						}
+					}
+					mu.Unlock()
+				}
+			}(c)
+		}
+		for _, p := range pubs {
+			s.WriteRtpPacket(p)
+			yield()
+		}
+		atomicAdd(&done, 1)
+		wg.Wait()
+		if bad != nil {
+			evid.Violation(t, "churn-gap-or-repeat", map[string]any{"codec": cdc.String(), "churners": churners, "packets": npk, "session": bad.list},
+				"a consumer that was attached while others attached and detached received %v: not a run of consecutive packets", bad.list)
+		}
+		evid.ClassN("churn sessions judged", int64(sessions))
+		evid.Nontrivial(evid.FP("churn", h265, churners, npk, fmt.Sprint(hold)))
 	})
 }
